@@ -215,13 +215,22 @@ def run(prop, tier):
             listings.append(li)
             pairs.append([len(rules) - 1, len(listings) - 1])
             meta.append((kind, mode, label))
-    obs = matchpipe.drive({"rules": rules, "listings": listings, "pairs": pairs}, tag="c17")
+    obs = matchpipe.drive({"rules": rules, "listings": listings, "pairs": pairs, "retry": True}, tag="c17")
     by = {(o["r"], o["l"]): o for o in obs}
     cases, olist = [], []
     for (ri, li), (kind, mode, label) in zip(pairs, meta):
         o = by[(ri, li)]
         olist.append(o)
         cases.append({"fault": kind, "mode": mode, "outcome": outcome_of(o)})
+    # the same faulty operation attempted a second time in the same process must end the same way (a failure must
+    # not leave anything behind that turns the retry into a silent "not found")
+    n1 = len(pairs)
+    for (ri, li), (kind, mode, label) in list(zip(pairs, meta))[:n1]:
+        o2 = by[(ri, li)]["retry"]
+        olist.append(o2)
+        cases.append({"fault": kind, "mode": mode, "outcome": outcome_of(o2)})
+        pairs.append([ri, li])
+        meta.append((kind, mode, label + " (second attempt in the same process)"))
     path = os.path.join(scratch(), "c17.cases.json")
     with open(path, "w") as f:
         json.dump({"cases": cases}, f)
